@@ -42,6 +42,8 @@ def check_transfer(run, probe=None, n_random=1500, maxlen=4):
     """returns (number of calls compared, list of mismatching calls)"""
     if probe is None:
         probe = lib.build_verifprobe(run)
+    if probe is None:      # hooks do not compile against this tree: L1 skipped (see lib.build_verifprobe)
+        return 0, []
     ins = gen_inputs(run.rng, n_random, maxlen)
     calls = []
     for s in ins:
